@@ -385,7 +385,11 @@ class Lib:
                 if stmt:
                     ex.used_lib.add("%s.%s: %s" % (tc, attr, stmt))
                 return impl(ex, st, base, node, fv.py[3])
-            callee = ex.resolve_contract(attr)
+            try:
+                dotted = ast.unparse(node.func)
+            except Exception:
+                dotted = attr
+            callee = ex.resolve_contract(dotted)
             if callee is not None:
                 return self.call_contract(ex, st, callee, node, self_sv=base)
             raise self.E.Unsupported("method %s.%s" % (tc, attr))
@@ -450,6 +454,11 @@ class Lib:
                 raise self.E.Unsupported("unknown keyword %s for %s" % (kw.arg, callee.target))
             bound[kw.arg] = ex.ev(st, kw.value)
             argnodes[kw.arg] = kw.value
+        for fn_ in callee.self_fields:
+            key = "self." + fn_
+            if key not in st.env:
+                raise self.E.Unsupported("callee %s needs %s" % (callee.target, key))
+            bound[key] = st.env[key]
         for pn in pnames:
             if pn not in bound:
                 d = getattr(callee, "defaults", {}).get(pn)
@@ -498,10 +507,13 @@ class Lib:
             # result and modified arguments
             post_env = dict(bound)
             for m in callee.modifies:
-                nv = ex.fresh(m, bound[m].t)
+                nv = ex.fresh(m.replace(".", "_"), bound[m].t)
                 for fct in ex.wf(nv):
                     ex.assume(st, fct)
                 post_env[m] = nv
+                if m.startswith("self."):
+                    st.env[m] = nv
+                    continue
                 an = argnodes.get(m)
                 if isinstance(an, ast.Name) and an.id in st.env:
                     st.env[an.id] = nv
@@ -548,7 +560,7 @@ class Lib:
 
     # ---------------------------------------------------------------- builtins (b_<name>)
     def b_len(self, ex, st, node):
-        v = ex.ev(st, node.args[0])
+        v = ex.unwrap(st, ex.ev(st, node.args[0]), node, "argument of len")
         if isinstance(v.t, TSeq):
             return SV(INT, ex.seq_len(v))
         if isinstance(v.t, TDict):
@@ -802,8 +814,18 @@ class Lib:
         v = node.args[0]
         cls = ast.unparse(node.args[1])
         tags = getattr(ex.c, "tags", {}) or {}
-        if isinstance(v, ast.Name) and v.id in tags:
-            return SV(BOOL, z3.BoolVal(any(c in tags[v.id] for c in cls.strip("()").replace(" ", "").split(","))))
+        vname = ast.unparse(v)
+        if vname in tags:
+            names_ = cls.strip("()").replace(" ", "").split(",")
+            tg = tags[vname]
+            if isinstance(tg, dict):
+                for c_ in names_:
+                    if c_ in tg:
+                        s2 = st.fork()
+                        s2.spec = True
+                        return SV(BOOL, ex.truth(ex.ev(s2, ast.parse(tg[c_], mode="eval").body)))
+                return SV(BOOL, z3.BoolVal(False))
+            return SV(BOOL, z3.BoolVal(any(c_ in tg for c_ in names_)))
         val = ex.ev(st, v)
         names = cls.strip("()").replace(" ", "").split(",")
         if val.t == STR:
